@@ -92,8 +92,11 @@ CHECKS = {
     'C08': dict(
         props=['C08'], opts='props=0 q=4',
         quick=[mc(2, [2, 4, 5, 6], DEL, DEL + GC + ['add_face_v', 'add_edge'], Modes='ModesTwo', BUSets='BUTwo'),
-               mc(1, MAINSEEDS + EXTRA, [], SWAP + DEL, Modes='ModesDefault', BUSets='BUOn')],
+               mc(1, MAINSEEDS + EXTRA, [], SWAP + DEL, Modes='ModesDefault', BUSets='BUOn'),
+               # "faces ... accepted with topology check are closed loops": every halfedge list up to length 3
+               mc(1, [6], [], ['add_face'], Modes='ModesDefault', BUSets='BUOn', MaxList=3)],
         thorough=[mc(3, [2, 5, 6, 11], DEL, DEL + GC + ['add_face_v', 'add_edge'], Modes='ModesTwo', BUSets='BUTwo'),
+                  mc(2, [1, 6], ['delete_face', 'delete_edge'], ['add_face'], Modes='ModesTwo', BUSets='BUTwo', MaxList=3),
                   mc(2, SMALL + EXTRA, DEL, SWAP, Modes='ModesTwo', BUSets='BUOn')],
         sim=dict(ops=DEL + GC + ADDS + SWAP + MODE, num=(12, 100), depth=(20, 40)),
     ),
